@@ -278,6 +278,14 @@ func describeArray(v ssa.Value, handoff ssa.Instruction) arrayDesc {
 		d.at = makes[0]
 	}
 	switch {
+	case len(apps) == 0 && (len(makes) == 0 || zeroLen) && cellOf(v) != nil:
+		// a variable captured by a function literal that appends to it: elements per call × calls
+		if total, at, ok := closureAppendTotal(cellOf(v), handoff); ok {
+			d.kind = "append"
+			d.poly = total
+			d.length = total.String()
+			d.at = at
+		}
 	case len(makes) == 1 && !zeroLen && len(apps) == 0:
 		d.kind = "make"
 		d.length = canonExpr(makes[0].Len, 0)
@@ -311,6 +319,146 @@ func describeArray(v ssa.Value, handoff ssa.Instruction) arrayDesc {
 		d.length = total.String()
 	}
 	return d
+}
+
+// cellOf: v is the content of a local variable cell (a variable captured by a function literal).
+func cellOf(v ssa.Value) *ssa.Alloc {
+	for r := range aliasRoots(v) {
+		if u, ok := r.(*ssa.UnOp); ok && u.Op == token.MUL {
+			if a, ok := u.X.(*ssa.Alloc); ok {
+				return a
+			}
+		}
+	}
+	return nil
+}
+
+// closureAppendTotal: the cell starts empty in its function and is only extended by function literals of that
+// function, each of which appends a fixed number of elements on every call; total = Σ over the call sites of
+// (elements per call × Π trip counts of the loops around the call).
+func closureAppendTotal(cell *ssa.Alloc, handoff ssa.Instruction) (gpoly, ssa.Instruction, bool) {
+	fn := cell.Parent()
+	// stores in the declaring function: only the empty start value
+	for _, r := range ssau.Refs(cell) {
+		if st, ok := r.(*ssa.Store); ok && st.Addr == cell {
+			switch x := st.Val.(type) {
+			case *ssa.MakeSlice:
+				if k, ok := ssau.ConstInt(x.Len); !ok || k != 0 {
+					return dbgFalse(1)
+				}
+			case *ssa.Const:
+				if !x.IsNil() {
+					return dbgFalse(2)
+				}
+			case *ssa.Slice:
+				// make([]T, 0) with constant bounds is an empty window of a new array
+				al, isAlloc := x.X.(*ssa.Alloc)
+				if !isAlloc {
+					return dbgFalse(3)
+				}
+				if at, ok := al.Type().Underlying().(*types.Pointer).Elem().Underlying().(*types.Array); !ok || at.Len() != 0 {
+					if x.High == nil {
+						return dbgFalse(3)
+					}
+					if k, ok := ssau.ConstInt(x.High); !ok || k != 0 {
+						return dbgFalse(3)
+					}
+				}
+			default:
+				return dbgFalse(3)
+			}
+		}
+	}
+	total := gpoly{}
+	var first ssa.Instruction
+	found := false
+	for _, r := range ssau.Refs(cell) {
+		mc, ok := r.(*ssa.MakeClosure)
+		if !ok {
+			continue
+		}
+		lit, ok := mc.Fn.(*ssa.Function)
+		if !ok {
+			return dbgFalse(4)
+		}
+		var fv *ssa.FreeVar
+		for i, b := range mc.Bindings {
+			if b == cell && i < len(lit.FreeVars) {
+				fv = lit.FreeVars[i]
+			}
+		}
+		if fv == nil {
+			continue
+		}
+		// per call: every store to the captured variable is append(load(variable), k elements), unconditional, not in a loop
+		per := int64(0)
+		okLit := true
+		stores := 0
+		for _, rr := range ssau.Refs(fv) {
+			st, isStore := rr.(*ssa.Store)
+			if !isStore || st.Addr != fv {
+				continue
+			}
+			stores++
+			app, isCall := st.Val.(*ssa.Call)
+			if !isCall || ssau.Builtin(app) != "append" {
+				okLit = false
+				break
+			}
+			base, isLoad := app.Call.Args[0].(*ssa.UnOp)
+			if !isLoad || base.X != ssa.Value(fv) {
+				okLit = false
+				break
+			}
+			n := appendCount(app)
+			if n < 0 || ssau.InnermostLoop(ssau.Loops(lit), st.Block()) != nil {
+				okLit = false
+				break
+			}
+			for _, b := range lit.Blocks {
+				if len(b.Instrs) > 0 {
+					if _, isRet := b.Instrs[len(b.Instrs)-1].(*ssa.Return); isRet && !st.Block().Dominates(b) {
+						okLit = false
+					}
+				}
+			}
+			per += int64(n)
+		}
+		if !okLit {
+			return dbgFalse(5)
+		}
+		if stores == 0 {
+			continue // reads only
+		}
+		// call sites of the literal in the declaring function
+		for _, rr := range ssau.Refs(mc) {
+			call, isCall := rr.(*ssa.Call)
+			if !isCall || call.Call.Value != ssa.Value(mc) {
+				return dbgFalse(6) // the literal escapes: calls cannot be counted
+			}
+			t, ok := siteTotal(call, gconst(per), handoff)
+			if !ok {
+				return dbgFalse(7)
+			}
+			total = total.add(t, 1)
+			found = true
+			if first == nil || call.Pos() < first.Pos() {
+				first = call
+			}
+		}
+	}
+	_ = fn
+	if !found {
+		return dbgFalse(8)
+	}
+	return total, first, true
+}
+
+func dbgFalse(n int) (gpoly, ssa.Instruction, bool) {
+	if os.Getenv("POLYCHECK_GENDEBUG") != "" {
+		fmt.Fprintf(os.Stderr, "GENDEBUG closureAppendTotal gives up at #%d\n", n)
+	}
+	return nil, nil, false
 }
 
 // siteTotal: how many elements the append site contributes in total, as a canonical product — only when the
@@ -660,7 +808,7 @@ func Generators(fns []*ssa.Function, modelingPath string) []GenFinding {
 					conds = append(conds, d)
 					condAt = append(condAt, h.at)
 				} else if os.Getenv("POLYCHECK_GENDEBUG") == "undesc" {
-					fmt.Fprintf(os.Stderr, "GENDEBUG undescribed array in %s: %s (%d handed)\n", fn.String(), h.v.Name(), len(hs))
+					fmt.Fprintf(os.Stderr, "GENDEBUG undescribed array in %s: %s = %s (%d handed)\n", fn.String(), h.v.Name(), h.v.String(), len(hs))
 				}
 			}
 			// an array that grows under a per-element condition, attached unconditionally next to a sibling
